@@ -12,7 +12,8 @@ vars == <<s, op, phase>>
 
 Elems == IF Elem = "int" THEN {1, 2, 3}
          \* two items that print alike; two lists that differ only deep inside
-         ELSE {IId("NOOP"), IIns("NOOP"), IList(<<IInt(1), IList(<<IInt(2)>>)>>), IList(<<IInt(1), IList(<<IInt(3)>>)>>)}
+         \* ... and a name whose text is not ASCII
+         ELSE {IId("NOOP"), IIns("NOOP"), IList(<<IInt(1), IList(<<IInt(2)>>)>>), IList(<<IInt(1), IList(<<IInt(3)>>)>>), IId("é")}
 SeqsUpTo(S, d) == UNION {[1..k -> S] : k \in 0..d}
 Pos(st) == 0..(Len(st) + 2)
 Ops(st) ==
